@@ -47,6 +47,26 @@ func init() {
 		},
 	})
 	regProp(&propDef{
+		id:   "C12",
+		gen:  func(seed uint64, th bool) *Plan { return genEndPlan(seed, th) },
+		chk:  newEndChecker,
+		rule: "classes: timeout (all five blocking commands, timeouts 0.001..10 s and 0, clock moved to just before and just past the deadline, repeated on one connection), unblock (CLIENT UNBLOCK id [TIMEOUT|ERROR] on a client known to sit in its blocking select, then on the same client while idle, on an unknown id, with a blocked bystander), close (blocked client closes, is reset or is CLIENT KILLed, then pushes, optionally a live consumer), race (UNBLOCK, CLIENT INFO/LIST, pushes, timers and clock jumps at tape-chosen moments); oracles on simulated time, replies, conservation of pushed elements, follow-up commands, bystanders, and the simulator's livelock/deadlock detection; non-trivial = a timeout was verified against the simulated clock, or an unblock/close/kill hit a client inside the block/wake protocol; distinct = distinct scheduler event sequence",
+		nontrivial: func(res *RunResult) bool {
+			e := res.Extra
+			return e["timeouts-exact"]+e["timeout0-waited"]+e["unblocked"]+e["conserved"]+e["race-unblock-ones"] > 0
+		},
+		quickRuns:       5000,
+		thoroughRuns:    300000,
+		quickSeconds:    60,
+		thoroughSeconds: 900,
+		level:           "exploration",
+		explanation:     "Timeouts are checked against the simulated clock exactly: the clock only moves when the simulator moves it, so 'not earlier than t' and 'done once the clock passed t' are assertions, not tolerances.",
+		assumptions: []string{
+			"'promptly after t' is read as: once the simulator has moved the clock past the deadline by delta and let every runnable goroutine finish, the reply must be there",
+			"in the race class only consistency is demanded (an UNBLOCKED error requires a CLIENT UNBLOCK that answered 1), never a particular winner",
+		},
+	})
+	regProp(&propDef{
 		id:   "C14",
 		gen:  func(seed uint64, th bool) *Plan { return genDbPlan(seed, th) },
 		chk:  newSeqChecker,
